@@ -144,6 +144,30 @@ func galias(args []string) error {
 							}
 							pj = np
 						}
+					case "deser":
+						// the object is the destination of Deserialize and now holds [42,"other"]
+						op, perr := simdjson.Parse([]byte(`[42,"other"]`), nil)
+						if perr != nil {
+							bad("deser", "the other document parses", perr.Error())
+							return
+						}
+						ser := simdjson.NewSerializer()
+						blobBytes := ser.Serialize(nil, *op)
+						if h.Field("who").S == "c" {
+							np, derr := ser.Deserialize(blobBytes, clone)
+							if derr != nil {
+								bad("deser", "the blob deserializes into the clone", derr.Error())
+								return
+							}
+							clone = np
+						} else {
+							np, derr := ser.Deserialize(blobBytes, pj)
+							if derr != nil {
+								bad("deser", "the blob deserializes into the original", derr.Error())
+								return
+							}
+							pj = np
+						}
 					case "edit":
 						target := pj
 						if h.Field("who").S == "c" {
@@ -223,8 +247,8 @@ func histString(h []tla.Value) []string {
 		if op == "edit" {
 			op = fmt.Sprintf("edit(%s,%v,%s)", e.Field("who").S, e.Field("p").IntSlice(), e.Field("k").S)
 		}
-		if op == "reuse" {
-			op = fmt.Sprintf("reuse(%s)", e.Field("who").S)
+		if op == "reuse" || op == "deser" {
+			op = fmt.Sprintf("%s(%s)", op, e.Field("who").S)
 		}
 		out = append(out, op)
 	}
